@@ -425,3 +425,59 @@ def gen_direct(rng):
             "noise": [(target, off, "between" if mode < 0.55 else ("inside" if mode < 0.8 else "outside"))],
             "true_phases": used, "solns": list(range(1, nsol + 1)), "redox_elements": els}
     return {"db": DB, "input": "\n".join(L) + "\n", "meta": meta}
+
+
+def gen_iso(rng, ex18_text):
+    """isotope mole-balance problems: the shipped Madison-aquifer example (13C, 34S) with random phase subsets, global and
+    isotope uncertainties (in -isotopes, per solution), perturbed analyses and isotope ratios, -range / -minimal"""
+    lines = ex18_text.split("\n")
+    out = []
+    sect = None
+    meta = {"scenario": "iso-ex18", "flags": {}, "noise": [], "redox": True}
+    keep_always = {"Dolomite", "Calcite", "Anhydrite", "CH2O"}
+    nph = 0
+    for l in lines:
+        w = l.split()
+        if not w:
+            out.append(l)
+            continue
+        if w[0].upper() in ("SOLUTION", "INVERSE_MODELING", "PHASES", "EXCHANGE_SPECIES", "END", "TITLE"):
+            sect = w[0].upper()
+        if sect == "SOLUTION" and w[0] in ("Ca", "Mg", "Na", "K", "Cl", "S(6)", "C(4)") and rng.random() < 0.5:
+            l = "        %s %s" % (w[0], fmt(float(w[1]) * rng.uniform(0.97, 1.03)))
+        elif sect == "SOLUTION" and w[0] == "-i" and rng.random() < 0.6:
+            val = float(w[2]) + rng.uniform(-0.5, 0.5)
+            unc = float(w[3]) * rng.choice([1, 1, 0.5, 2]) if len(w) > 3 else None
+            l = "        -i %s %s%s" % (w[1], fmt(val), " " + fmt(unc) if unc else "")
+        elif sect == "INVERSE_MODELING":
+            if w[0] == "-uncertainty":
+                u = rng.choice([0.05, 0.05, 0.07, 0.1])
+                l = "        -uncertainty %s" % fmt(u)
+                meta["unc"] = u
+            elif w[0] == "-range":
+                if rng.random() < 0.5:
+                    meta["flags"]["range"] = True
+                else:
+                    continue
+                if rng.random() < 0.3:
+                    out.append("        -minimal")
+                    meta["flags"]["minimal"] = True
+            elif w[0] in ("13C", "34S") and len(w) == 1:
+                r = rng.random()
+                if r < 0.3:
+                    l = "                %s %s" % (w[0], " ".join(fmt(rng.choice([0.2, 1.0, 1.5, 3.0])) for _ in range(rng.randint(1, 2))))
+                    meta["flags"]["iso_unc_list"] = True
+            elif len(w) >= 2 and w[1] in ("dis", "pre") or w[0] in ("Goethite", "NaX", "Halite", "Sylvite"):
+                if w[0] not in keep_always and rng.random() < 0.25:
+                    continue
+                nph += 1
+                if len(w) >= 5 and rng.random() < 0.4:
+                    w[3] = fmt(float(w[3]) + rng.uniform(-1, 1))
+                    w[4] = fmt(float(w[4]) * rng.choice([0.5, 1, 2]))
+                    l = "                " + " ".join(w)
+        out.append(l)
+    meta["nphases"] = nph
+    txt = "\n".join(out)
+    import re as _re
+    txt = _re.sub(r"^INVERSE_MODELING", "SELECTED_OUTPUT 1\n -reset false\n -inverse_modeling true\nINVERSE_MODELING", txt, count=1, flags=_re.M)
+    return {"db": DB, "input": txt, "meta": meta}
